@@ -1,11 +1,805 @@
-// Package c20 - correspondence harness for C20 (stub: not built yet).
+// Package c20 drives the real plugin.CLIManager (Install / Uninstall / List / Get) over a
+// real plugin root with shell-script plugins, through sequences of operations, and the real
+// internal/semver on generated version strings.
+//
+// Everything the concrete world contains is a function of the abstract input (file modes and
+// the flavour of an invalid plugin derive from the content id), so a case replays exactly.
 package c20
 
 import (
+	"bufio"
+	"context"
+	"encoding/json"
 	"errors"
+	"fmt"
+	"os"
+	"os/exec"
+	"path/filepath"
+	"regexp"
+	"runtime"
+	"sort"
+	"strconv"
+	"strings"
 
+	"github.com/notaryproject/notation-go/dir"
+	"github.com/notaryproject/notation-go/internal/semver"
+	"github.com/notaryproject/notation-go/plugin"
 	"github.com/notaryproject/notation-go/xverif/common"
+	pf "github.com/notaryproject/notation-plugin-framework-go/plugin"
 )
 
+// ---- abstract input (JSON = Lean's derived FromJson of NotationModel.C20.Input) ----------
+
+type Script struct {
+	Name    string `json:"name"`
+	Version string `json:"version"`
+	Valid   bool   `json:"valid"`
+}
+
+type File struct {
+	Name   string  `json:"name"`
+	Exec   bool    `json:"exec"`
+	Cid    int     `json:"cid"`
+	Script *Script `json:"script"`
+}
+
+type Entry struct {
+	Kind   string  `json:"kind"` // file | dir | symlink
+	Name   string  `json:"name"`
+	Exec   bool    `json:"exec"`
+	Cid    int     `json:"cid"`
+	Script *Script `json:"script"`
+	Nested []File  `json:"nested"`
+}
+
+type Op struct {
+	Kind      string  `json:"kind"` // install | uninstall
+	Name      string  `json:"name"`
+	Overwrite bool    `json:"overwrite"`
+	SrcIsDir  bool    `json:"srcIsDir"`
+	SrcBase   string  `json:"srcBase"`
+	Entries   []Entry `json:"entries"`
+}
+
+type Input struct {
+	Kind string `json:"kind"` // seq | semver
+	Ops  []Op   `json:"ops"`
+	V    string `json:"v"`
+	W    string `json:"w"`
+}
+
+// ---- observation ---------------------------------------------------------------------------
+
+type FileObs struct {
+	Name string `json:"name"`
+	Cid  int    `json:"cid"`
+	Exec bool   `json:"exec"`
+}
+
+type PluginObs struct {
+	Name    string    `json:"name"`
+	Files   []FileObs `json:"files"`
+	Version *string   `json:"version"`
+}
+
+type StepObs struct {
+	Err      string      `json:"err"` // ok | downgrade | equalVersion | notExist | other
+	Existing *string     `json:"existing"`
+	New      *string     `json:"new"`
+	Root     []PluginObs `json:"root"`
+	Listed   []string    `json:"listed"`
+}
+
+type Obs struct {
+	Steps  []StepObs `json:"steps"`
+	ValidV bool      `json:"validV"`
+	ValidW bool      `json:"validW"`
+	Cmp    *int      `json:"cmp"`
+}
+
+// ---- concretisation ------------------------------------------------------------------------
+
+func metadataJSON(name, version, description string, contracts, caps []string) string {
+	m := map[string]any{"name": name, "description": description, "version": version, "url": "https://example.com/" + "plugin",
+		"supportedContractVersions": contracts, "capabilities": caps}
+	b, _ := json.Marshal(m)
+	return string(b)
+}
+
+// shell-quote for single quotes
+func shq(s string) string { return "'" + strings.ReplaceAll(s, "'", `'\''`) + "'" }
+
+// content of a regular file; every file carries its content id
+func content(cid int, s *Script) string {
+	if s == nil {
+		return fmt.Sprintf("data cid=%d\n", cid) // no shebang: cannot be executed
+	}
+	head := fmt.Sprintf("#!/bin/sh\n# cid=%d\n", cid)
+	good := metadataJSON(s.Name, s.Version, "d", []string{"1.0"}, []string{"SIGNATURE_GENERATOR.RAW"})
+	if s.Valid {
+		return head + "printf '%s\\n' " + shq(good) + "\n"
+	}
+	switch cid % 6 {
+	case 0:
+		return head + "exit 1\n"
+	case 1:
+		return head + "echo not json\n"
+	case 2:
+		return head + "printf '%s\\n' " + shq(metadataJSON(s.Name, s.Version, "", []string{"1.0"}, []string{"SIGNATURE_GENERATOR.RAW"})) + "\n"
+	case 3:
+		return head + "printf '%s\\n' " + shq(metadataJSON(s.Name, s.Version, "d", []string{"2.0"}, []string{"SIGNATURE_GENERATOR.RAW"})) + "\n"
+	case 4:
+		return head + "printf '%s\\n' " + shq(metadataJSON(s.Name, s.Version, "d", []string{"1.0"}, []string{})) + "\n"
+	default:
+		return head + "echo '{\"errorCode\":\"ERROR\",\"errorMessage\":\"refused\"}' >&2\nexit 1\n"
+	}
+}
+
+func mode(cid int, exe bool) os.FileMode {
+	if exe {
+		return []os.FileMode{0o755, 0o700, 0o744}[cid%3]
+	}
+	return []os.FileMode{0o644, 0o600, 0o640}[cid%3]
+}
+
+func writeFile(path string, cid int, exe bool, s *Script) error {
+	if err := os.WriteFile(path, []byte(content(cid, s)), 0o600); err != nil {
+		return err
+	}
+	return os.Chmod(path, mode(cid, exe))
+}
+
+// materialise builds the source of an install operation under base and returns PluginPath.
+func materialise(base string, op Op) (string, error) {
+	if err := os.MkdirAll(base, 0o755); err != nil {
+		return "", err
+	}
+	if !op.SrcIsDir {
+		if len(op.Entries) != 1 {
+			if op.SrcBase == "" {
+				return "", nil // empty PluginPath
+			}
+			return filepath.Join(base, op.SrcBase), nil // no such path
+		}
+		e := op.Entries[0]
+		p := filepath.Join(base, e.Name)
+		return p, writeFile(p, e.Cid, e.Exec, e.Script)
+	}
+	src := filepath.Join(base, op.SrcBase)
+	if err := os.MkdirAll(src, 0o755); err != nil {
+		return "", err
+	}
+	for _, e := range op.Entries {
+		p := filepath.Join(src, e.Name)
+		switch e.Kind {
+		case "file":
+			if err := writeFile(p, e.Cid, e.Exec, e.Script); err != nil {
+				return "", err
+			}
+		case "dir":
+			if err := os.MkdirAll(p, 0o755); err != nil {
+				return "", err
+			}
+			for _, f := range e.Nested {
+				if err := writeFile(filepath.Join(p, f.Name), f.Cid, f.Exec, f.Script); err != nil {
+					return "", err
+				}
+			}
+		case "symlink":
+			tdir := filepath.Join(base, "targets")
+			if err := os.MkdirAll(tdir, 0o755); err != nil {
+				return "", err
+			}
+			t := filepath.Join(tdir, strconv.Itoa(e.Cid))
+			if err := writeFile(t, e.Cid, e.Exec, e.Script); err != nil {
+				return "", err
+			}
+			if err := os.Symlink(t, p); err != nil {
+				return "", err
+			}
+		default:
+			return "", fmt.Errorf("bad entry kind %q", e.Kind)
+		}
+	}
+	return src, nil
+}
+
+var cidRe = regexp.MustCompile(`cid=(\d+)`)
+
+func snapshot(ctx context.Context, m *plugin.CLIManager, root string) ([]PluginObs, []string, error) {
+	out := []PluginObs{}
+	des, err := os.ReadDir(root) // sorted by name
+	if err != nil {
+		return nil, nil, err
+	}
+	for _, de := range des {
+		po := PluginObs{Name: de.Name(), Files: []FileObs{}}
+		if !de.IsDir() {
+			// not produced by the manager: make it visible (never equals a model observation)
+			po.Files = append(po.Files, FileObs{Name: "<not a directory>", Cid: -1})
+			out = append(out, po)
+			continue
+		}
+		fes, err := os.ReadDir(filepath.Join(root, de.Name()))
+		if err != nil {
+			return nil, nil, err
+		}
+		for _, fe := range fes {
+			p := filepath.Join(root, de.Name(), fe.Name())
+			fi, err := os.Lstat(p)
+			if err != nil {
+				return nil, nil, err
+			}
+			if !fi.Mode().IsRegular() {
+				po.Files = append(po.Files, FileObs{Name: fe.Name() + "/<not regular>", Cid: -1})
+				continue
+			}
+			b, err := os.ReadFile(p)
+			if err != nil {
+				return nil, nil, err
+			}
+			cid := -1
+			if mm := cidRe.FindSubmatch(b); mm != nil {
+				cid, _ = strconv.Atoi(string(mm[1]))
+			}
+			po.Files = append(po.Files, FileObs{Name: fe.Name(), Cid: cid, Exec: fi.Mode().Perm()&0o100 != 0})
+		}
+		// fetch the plugin by the name of its directory and ask it
+		if p, err := m.Get(ctx, de.Name()); err == nil {
+			if md, err := p.GetMetadata(ctx, &pf.GetMetadataRequest{}); err == nil && md != nil && md.Name == de.Name() {
+				v := md.Version
+				po.Version = &v
+			}
+		}
+		out = append(out, po)
+	}
+	listed, err := m.List(ctx)
+	if err != nil {
+		return nil, nil, err
+	}
+	if listed == nil {
+		listed = []string{}
+	}
+	return out, listed, nil
+}
+
+func runSeq(work string, in Input) (Obs, error) {
+	obs := Obs{Steps: []StepObs{}}
+	if err := os.MkdirAll(work, 0o755); err != nil {
+		return obs, err
+	}
+	defer os.RemoveAll(work)
+	root := filepath.Join(work, "root")
+	if err := os.MkdirAll(root, 0o755); err != nil {
+		return obs, err
+	}
+	ctx := context.Background()
+	m := plugin.NewCLIManager(dir.NewSysFS(root))
+	for k, op := range in.Ops {
+		st := StepObs{Err: "ok"}
+		switch op.Kind {
+		case "install":
+			path, err := materialise(filepath.Join(work, fmt.Sprintf("s%d", k)), op)
+			if err != nil {
+				return obs, err
+			}
+			ex, nw, err := m.Install(ctx, plugin.CLIInstallOptions{PluginPath: path, Overwrite: op.Overwrite})
+			if ex != nil {
+				v := ex.Version
+				st.Existing = &v
+			}
+			if nw != nil {
+				v := nw.Version
+				st.New = &v
+			}
+			var down plugin.PluginDowngradeError
+			var equal plugin.InstallEqualVersionError
+			switch {
+			case err == nil:
+			case errors.As(err, &down):
+				st.Err = "downgrade"
+			case errors.As(err, &equal):
+				st.Err = "equalVersion"
+			default:
+				st.Err = "other"
+			}
+		case "uninstall":
+			err := m.Uninstall(ctx, op.Name)
+			switch {
+			case err == nil:
+			case errors.Is(err, os.ErrNotExist):
+				st.Err = "notExist"
+			default:
+				st.Err = "other"
+			}
+		default:
+			return obs, fmt.Errorf("bad op kind %q", op.Kind)
+		}
+		var err error
+		st.Root, st.Listed, err = snapshot(ctx, m, root)
+		if err != nil {
+			return obs, err
+		}
+		obs.Steps = append(obs.Steps, st)
+	}
+	return obs, nil
+}
+
+func runSemver(in Input) Obs {
+	o := Obs{Steps: []StepObs{}, ValidV: semver.IsValid(in.V), ValidW: semver.IsValid(in.W)}
+	if c, err := semver.ComparePluginVersion(in.V, in.W); err == nil {
+		o.Cmp = &c
+	}
+	return o
+}
+
+// ---- generator -----------------------------------------------------------------------------
+
+var validVersions = []string{"1.0.0", "1.0.1", "1.1.0-alpha", "1.1.0-alpha.1", "1.1.0-alpha.beta", "1.1.0-beta", "1.1.0-beta.2",
+	"1.1.0-beta.11", "1.1.0-rc.1", "1.1.0", "1.1.0+build5", "2.0.0-rc.1", "9.0.0", "10.0.0"}
+var invalidVersions = []string{"1.0", "v1.0.0", "01.0.0", "", "1.0.0-01", "1.0.0+"}
+
+type gen struct {
+	c   *common.Ctx
+	cid int
+}
+
+func (g *gen) next() int { g.cid++; return g.cid }
+func (g *gen) pick(ss []string) string {
+	return ss[g.c.Rand.Intn(len(ss))]
+}
+func (g *gen) chance(p float64) bool { return g.c.Rand.Float64() < p }
+
+func (g *gen) version() string {
+	if g.chance(0.12) {
+		return g.pick(invalidVersions)
+	}
+	return g.pick(validVersions)
+}
+
+func (g *gen) script(name string) *Script {
+	s := &Script{Name: name, Version: g.version(), Valid: true}
+	r := g.c.Rand.Float64()
+	switch {
+	case r < 0.05:
+		s.Valid = false
+	case r < 0.10:
+		s.Name = g.pick([]string{"other", "bar", "foo", "Foo", ""}) // misnamed metadata (may coincide)
+	case r < 0.13:
+		return nil // a data file with a plugin name
+	}
+	return s
+}
+
+func (g *gen) fileEntry(name string, exe bool, s *Script) Entry {
+	return Entry{Kind: "file", Name: name, Exec: exe, Cid: g.next(), Script: s, Nested: []File{}}
+}
+
+var extras = []string{"LICENSE", "zlib.so", "a.txt", "README.md", "notation-", "Notation-x", "notation", "~last", "0first"}
+var pluginNames = []string{"foo", "foo", "foo", "bar", "a.b"}
+
+// simpleInstall: install plugin name at version from a plain source
+func (g *gen) simpleInstall(name, version string, overwrite, fromDir bool) Op {
+	s := &Script{Name: name, Version: version, Valid: true}
+	op := Op{Kind: "install", Overwrite: overwrite, SrcIsDir: fromDir}
+	cand := g.fileEntry("notation-"+name, true, s)
+	if fromDir {
+		op.SrcBase = "pkg"
+		op.Entries = []Entry{g.fileEntry("LICENSE", false, nil), cand, g.fileEntry("zlib.so", false, nil)}
+	} else {
+		op.SrcBase = cand.Name
+		op.Entries = []Entry{cand}
+	}
+	return op
+}
+
+func (g *gen) install() Op {
+	name := g.pick(pluginNames)
+	op := Op{Kind: "install", Overwrite: g.chance(0.3), Entries: []Entry{}}
+	g.c.Count(fmt.Sprintf("install.overwrite=%v", op.Overwrite))
+	r := g.c.Rand.Float64()
+	if r < 0.30 { // ---- a single file
+		fn := "notation-" + name
+		exe := true
+		switch q := g.c.Rand.Float64(); {
+		case q < 0.08:
+			exe = false
+		case q < 0.14:
+			fn = g.pick([]string{"foo", "notation-", "notation", "Notation-foo", "notation-..", "notation-.", `notation-a\b`})
+		case q < 0.18:
+			op.SrcBase = g.pick([]string{"", "missing"}) // no such path / empty path
+			g.c.Count("shape.file.missing")
+			return op
+		}
+		var s *Script
+		if n, ok := strings.CutPrefix(fn, "notation-"); ok && n != "" {
+			s = g.script(n)
+		} else {
+			s = g.script(name)
+		}
+		e := g.fileEntry(fn, exe, s)
+		op.SrcBase, op.Entries = fn, []Entry{e}
+		g.c.Count(fmt.Sprintf("shape.file.exec=%v", exe))
+		return op
+	}
+	// ---- a directory
+	op.SrcIsDir = true
+	op.SrcBase = g.pick([]string{"pkg", "src", "notation-" + name, "lib"})
+	nExec := []int{0, 1, 1, 1, 1, 1, 1, 2}[g.c.Rand.Intn(8)]
+	nNon := []int{0, 0, 0, 0, 1, 1, 2}[g.c.Rand.Intn(7)]
+	used := map[string]bool{}
+	candNames := []string{"notation-" + name}
+	for _, n := range []string{"bar", "foo", "zed", "a.b", "0"} {
+		if n != name {
+			candNames = append(candNames, "notation-"+n)
+		}
+	}
+	g.c.Rand.Shuffle(len(candNames)-1, func(i, j int) { candNames[i+1], candNames[j+1] = candNames[j+1], candNames[i+1] })
+	if g.chance(0.1) { // an odd plugin name as the first candidate
+		candNames[0] = g.pick([]string{"notation-..", `notation-a\b`, "notation-."})
+	}
+	k := 0
+	for i := 0; i < nExec+nNon; i++ {
+		fn := candNames[k]
+		k++
+		used[fn] = true
+		n, _ := strings.CutPrefix(fn, "notation-")
+		op.Entries = append(op.Entries, g.fileEntry(fn, i < nExec, g.script(n)))
+	}
+	for _, x := range extras {
+		if g.chance(0.3) && !used[x] {
+			used[x] = true
+			op.Entries = append(op.Entries, g.fileEntry(x, g.chance(0.15), nil))
+		}
+	}
+	// sub-directories, also one named like the source directory itself and like the executable
+	for _, d := range []string{"lib", "zzz", op.SrcBase, "notation-" + name, "0dir"} {
+		if g.chance(0.17) && !used[d] {
+			used[d] = true
+			e := Entry{Kind: "dir", Name: d, Cid: g.next(), Nested: []File{}}
+			if g.chance(0.8) {
+				e.Nested = append(e.Nested, File{Name: "notation-" + name, Exec: true, Cid: g.next(),
+					Script: &Script{Name: name, Version: g.pick(validVersions), Valid: true}})
+			}
+			if g.chance(0.5) {
+				e.Nested = append(e.Nested, File{Name: g.pick(extras), Exec: false, Cid: g.next()})
+			}
+			if g.chance(0.3) {
+				e.Nested = append(e.Nested, File{Name: "notation-zed", Exec: g.chance(0.5), Cid: g.next(),
+					Script: &Script{Name: "zed", Version: "3.0.0", Valid: true}})
+			}
+			// distinct names inside the sub-directory
+			seen := map[string]bool{}
+			nn := e.Nested[:0]
+			for _, f := range e.Nested {
+				if !seen[f.Name] {
+					seen[f.Name] = true
+					nn = append(nn, f)
+				}
+			}
+			e.Nested = nn
+			op.Entries = append(op.Entries, e)
+			g.c.Count("shape.dir.subdir")
+			if d == op.SrcBase {
+				g.c.Count("shape.dir.subdir-named-like-source")
+			}
+		}
+	}
+	if g.chance(0.08) {
+		for _, x := range []string{"notation-" + name, "notation-lnk", "link.txt"} {
+			if !used[x] {
+				used[x] = true
+				n, _ := strings.CutPrefix(x, "notation-")
+				op.Entries = append(op.Entries, Entry{Kind: "symlink", Name: x, Exec: true, Cid: g.next(),
+					Script: &Script{Name: n, Version: "5.0.0", Valid: true}, Nested: []File{}})
+				g.c.Count("shape.dir.symlink")
+				break
+			}
+		}
+	}
+	g.c.Rand.Shuffle(len(op.Entries), func(i, j int) { op.Entries[i], op.Entries[j] = op.Entries[j], op.Entries[i] })
+	g.c.Count(fmt.Sprintf("shape.dir.execCand=%d.nonExecCand=%d", nExec, nNon))
+	return op
+}
+
+func (g *gen) uninstall() Op {
+	n := g.pick([]string{"foo", "foo", "foo", "foo", "foo", "bar", "bar", "a.b", "a.b", "baz", "..", "", "a/b", "."})
+	return Op{Kind: "uninstall", Name: n, Entries: []Entry{}}
+}
+
+func (g *gen) sequence() Input {
+	n := 1 + g.c.Rand.Intn(6)
+	in := Input{Kind: "seq", Ops: []Op{}}
+	for i := 0; i < n; i++ {
+		switch {
+		case i == 0 && g.chance(0.6):
+			in.Ops = append(in.Ops, g.simpleInstall(g.pick(pluginNames), g.pick(validVersions), false, g.chance(0.5)))
+		case g.chance(0.18):
+			in.Ops = append(in.Ops, g.uninstall())
+		case g.chance(0.25):
+			in.Ops = append(in.Ops, g.simpleInstall(g.pick(pluginNames), g.version(), g.chance(0.25), g.chance(0.5)))
+		default:
+			in.Ops = append(in.Ops, g.install())
+		}
+	}
+	return in
+}
+
+// regressionShapes: fixed witnesses of the repaired defects (kept as a corpus)
+func (g *gen) regressionShapes() []Input {
+	var out []Input
+	mk := func(second Op) Input {
+		return Input{Kind: "seq", Ops: []Op{g.simpleInstall("foo", "1.0.0", false, false), second,
+			{Kind: "uninstall", Name: "foo", Entries: []Entry{}}}}
+	}
+	s2 := func() *Script { return &Script{Name: "foo", Version: "2.0.0", Valid: true} }
+	// F-C20c: a sub-directory named like the source directory holds the only candidate
+	out = append(out, mk(Op{Kind: "install", SrcIsDir: true, SrcBase: "pkg", Entries: []Entry{
+		g.fileEntry("LICENSE", false, nil),
+		{Kind: "dir", Name: "pkg", Cid: g.next(), Nested: []File{{Name: "notation-foo", Exec: true, Cid: g.next(), Script: s2()}}}}}))
+	// ... and next to a real candidate (would make "two candidates")
+	out = append(out, mk(Op{Kind: "install", SrcIsDir: true, SrcBase: "pkg", Entries: []Entry{
+		g.fileEntry("notation-foo", true, s2()),
+		{Kind: "dir", Name: "pkg", Cid: g.next(), Nested: []File{{Name: "notation-bar", Exec: true, Cid: g.next(), Script: &Script{Name: "bar", Version: "1.0.0", Valid: true}}}}}}))
+	// F-C20a: nested file with the executable's own name must not be flattened over it
+	out = append(out, mk(Op{Kind: "install", SrcIsDir: true, SrcBase: "pkg", Entries: []Entry{
+		g.fileEntry("notation-foo", true, s2()),
+		{Kind: "dir", Name: "sub", Cid: g.next(), Nested: []File{{Name: "notation-foo", Exec: true, Cid: g.next(), Script: nil}, {Name: "zz.txt", Cid: g.next()}}}}}))
+	// F-C20b: single non-executable candidate followed by a later-sorting non-plugin file
+	out = append(out, mk(Op{Kind: "install", SrcIsDir: true, SrcBase: "pkg", Entries: []Entry{
+		g.fileEntry("notation-foo", false, s2()), g.fileEntry("zlib.so", false, nil)}}))
+	out = append(out, mk(Op{Kind: "install", SrcIsDir: true, SrcBase: "pkg", Entries: []Entry{
+		g.fileEntry("LICENSE", false, nil), g.fileEntry("notation-foo", false, s2())}}))
+	return out
+}
+
+// ---- semver stream ----------------------------------------------------------------------------
+
+var nums = []string{"0", "1", "2", "9", "10", "11", "99", "100", "18446744073709551616", "00", "01"}
+var preIds = []string{"alpha", "beta", "rc", "0", "1", "2", "10", "11", "a", "A", "-", "a-b", "0a", "1a", "x1", "Z", "z", "00", "01", "--", "a1b"}
+var buildIds = []string{"build5", "001", "a", "-", "b-7", "0"}
+
+const mutAlphabet = "0123456789.-+aAzZv _\n\té٣"
+
+func (g *gen) semverString() string {
+	r := g.c.Rand
+	var b strings.Builder
+	goodNums := nums[:9]
+	b.WriteString(goodNums[r.Intn(len(goodNums))] + "." + goodNums[r.Intn(4)] + "." + goodNums[r.Intn(4)])
+	if r.Intn(2) == 0 {
+		n := 1 + r.Intn(3)
+		ids := make([]string, n)
+		for i := range ids {
+			ids[i] = preIds[r.Intn(len(preIds))]
+		}
+		b.WriteString("-" + strings.Join(ids, "."))
+	}
+	if r.Intn(4) == 0 {
+		n := 1 + r.Intn(2)
+		ids := make([]string, n)
+		for i := range ids {
+			ids[i] = buildIds[r.Intn(len(buildIds))]
+		}
+		b.WriteString("+" + strings.Join(ids, "."))
+	}
+	return b.String()
+}
+
+func (g *gen) mutate(s string) string {
+	r := g.c.Rand
+	rs := []rune(s)
+	al := []rune(mutAlphabet)
+	for k := 1 + r.Intn(2); k > 0; k-- {
+		switch r.Intn(3) {
+		case 0: // insert
+			p := r.Intn(len(rs) + 1)
+			rs = append(rs[:p], append([]rune{al[r.Intn(len(al))]}, rs[p:]...)...)
+		case 1: // delete
+			if len(rs) > 0 {
+				p := r.Intn(len(rs))
+				rs = append(rs[:p], rs[p+1:]...)
+			}
+		default: // replace
+			if len(rs) > 0 {
+				rs[r.Intn(len(rs))] = al[r.Intn(len(al))]
+			}
+		}
+	}
+	return string(rs)
+}
+
+// variant keeps the core of v and changes the tail, so comparisons go deep
+func (g *gen) variant(v string) string {
+	core := v
+	if i := strings.IndexAny(v, "-+"); i >= 0 {
+		core = v[:i]
+	}
+	w := g.semverString()
+	if i := strings.IndexAny(w, "-+"); i >= 0 {
+		return core + w[i:]
+	}
+	return core
+}
+
+var semverFixed = []string{"0.0.0", "0.0.1", "0.1.0", "1.0.0-0", "1.0.0-1", "1.0.0-2", "1.0.0-10", "1.0.0-11", "1.0.0-1a", "1.0.0-A",
+	"1.0.0-a", "1.0.0-a.0", "1.0.0-a.1", "1.0.0-a.a", "1.0.0-a-", "1.0.0-alpha", "1.0.0-alpha.1", "1.0.0-alpha.beta", "1.0.0-beta",
+	"1.0.0-beta.2", "1.0.0-beta.11", "1.0.0-rc.1", "1.0.0", "1.0.0+b", "1.0.0-rc.1+b.7", "1.0.0+0.0", "1.0.1", "1.1.0", "1.10.0", "1.9.0",
+	"2.0.0", "9.0.0", "10.0.0", "18446744073709551616.0.0", "18446744073709551615.0.0", "1.0.0--", "1.0.0-a.-.b", "1.0.0-0a",
+	// not versions
+	"", "1", "1.0", "1.0.0.0", "v1.0.0", "01.0.0", "1.00.0", "1.0.00", "1.0.0-", "1.0.0-01", "1.0.0-a..b", "1.0.0-a.", "1.0.0+", "1.0.0+a..b",
+	"1.0.0+a+b", "1.0.0-a+", "1.0.0 ", " 1.0.0", "1.0.0\n", "1.0.0-é", "٣.0.0", "1.0.0-a_b", "-1.0.0", "1.-1.0", "+1.0.0", "1.0.0-+b"}
+
+// ---- driver ---------------------------------------------------------------------------------
+
+type rawLine struct {
+	Input json.RawMessage `json:"input"`
+	Obs   json.RawMessage `json:"obs"`
+}
+
 // Run generates the cases of C20.
-func Run(c *common.Ctx) error { return errors.New("C20: harness not built yet") }
+func Run(c *common.Ctx) error {
+	g := &gen{c: c}
+	// --- operation sequences (generated first: worker processes regenerate the same list)
+	var seqs []Input
+	seqs = append(seqs, g.regressionShapes()...)
+	nShapes := len(seqs)
+	// every ordered pair of versions x overwrite x source kind on one plugin
+	pool := append(append([]string{}, validVersions...), invalidVersions...)
+	for _, vo := range pool {
+		for _, vn := range pool {
+			for _, ow := range []bool{false, true} {
+				for _, fromDir := range []bool{false, true} {
+					seqs = append(seqs, Input{Kind: "seq", Ops: []Op{
+						g.simpleInstall("foo", vo, false, !fromDir), g.simpleInstall("foo", vn, ow, fromDir)}})
+				}
+			}
+		}
+	}
+	nPairs := len(seqs) - nShapes
+	nRandom := 2500
+	if c.Thorough() {
+		nRandom = 30000
+	}
+	for i := 0; i < nRandom; i++ {
+		seqs = append(seqs, g.sequence())
+	}
+
+	// --- worker mode: run a share of the sequences and return
+	if w := os.Getenv("C20_WORKER"); w != "" {
+		var i, n int
+		if _, err := fmt.Sscanf(w, "%d/%d", &i, &n); err != nil || n <= 0 {
+			return fmt.Errorf("bad C20_WORKER %q", w)
+		}
+		for k := i; k < len(seqs); k += n {
+			o, err := runSeq(filepath.Join(c.WorkDir, fmt.Sprintf("case%d", k)), seqs[k])
+			if err != nil {
+				return fmt.Errorf("sequence %d: %w", k, err)
+			}
+			c.Emit(seqs[k], o)
+		}
+		return nil
+	}
+
+	// --- parent: separate worker processes (concurrent fork+exec inside ONE process can hit
+	// ETXTBSY on a script another goroutine has just written; processes do not share descriptors)
+	nw := runtime.NumCPU()
+	if nw > 8 {
+		nw = 8
+	}
+	if nw < 1 {
+		nw = 1
+	}
+	type child struct {
+		cmd *exec.Cmd
+		out string
+	}
+	var children []child
+	for i := 0; i < nw; i++ {
+		wd := filepath.Join(c.WorkDir, fmt.Sprintf("w%d", i))
+		if err := os.MkdirAll(wd, 0o755); err != nil {
+			return err
+		}
+		out := filepath.Join(wd, "cases.jsonl")
+		cmd := exec.Command(os.Args[0], "C20", "-tier", c.Tier, "-seed", strconv.FormatInt(c.Seed, 10), "-out", out,
+			"-stats", filepath.Join(wd, "stats.json"), "-work", filepath.Join(wd, "work"), "-cache", c.CacheDir)
+		cmd.Env = append(os.Environ(), fmt.Sprintf("C20_WORKER=%d/%d", i, nw))
+		cmd.Stderr = os.Stderr
+		if err := os.MkdirAll(filepath.Join(wd, "work"), 0o755); err != nil {
+			return err
+		}
+		if err := cmd.Start(); err != nil {
+			return err
+		}
+		children = append(children, child{cmd, out})
+	}
+	var firstErr error
+	for i, ch := range children {
+		if err := ch.cmd.Wait(); err != nil && firstErr == nil {
+			firstErr = fmt.Errorf("worker %d: %w", i, err)
+		}
+	}
+	if firstErr != nil {
+		return firstErr
+	}
+	readers := make([]*bufio.Scanner, nw)
+	for i, ch := range children {
+		f, err := os.Open(ch.out)
+		if err != nil {
+			return err
+		}
+		defer f.Close()
+		readers[i] = bufio.NewScanner(f)
+		readers[i].Buffer(make([]byte, 1<<20), 1<<26)
+	}
+	for k := range seqs {
+		sc := readers[k%nw]
+		if !sc.Scan() {
+			return fmt.Errorf("worker %d produced no line for sequence %d", k%nw, k)
+		}
+		var l rawLine
+		if err := json.Unmarshal(sc.Bytes(), &l); err != nil {
+			return err
+		}
+		// the worker must have run exactly the sequence generated here
+		want, _ := json.Marshal(seqs[k])
+		if string(want) != string(l.Input) {
+			return fmt.Errorf("worker %d ran another input for sequence %d", k%nw, k)
+		}
+		c.Emit(l.Input, l.Obs)
+		c.Count(fmt.Sprintf("seq.len=%d", len(seqs[k].Ops)))
+		var o Obs
+		if err := json.Unmarshal(l.Obs, &o); err == nil {
+			for j, s := range o.Steps {
+				c.Count("step." + seqs[k].Ops[j].Kind + "." + s.Err)
+			}
+		}
+	}
+
+	// --- semver stream
+	nSem := 0
+	emitSem := func(v, w string) {
+		in := Input{Kind: "semver", Ops: []Op{}, V: v, W: w}
+		o := runSemver(in)
+		c.Emit(in, o)
+		nSem++
+		switch {
+		case o.Cmp == nil:
+			c.Count("semver.invalid")
+		default:
+			c.Count(fmt.Sprintf("semver.cmp=%d", *o.Cmp))
+		}
+	}
+	all := append(append([]string{}, semverFixed...), pool...)
+	sort.Strings(all)
+	for _, v := range all {
+		for _, w := range all {
+			emitSem(v, w)
+		}
+	}
+	nGen := 20000
+	if c.Thorough() {
+		nGen = 300000
+	}
+	for i := 0; i < nGen; i++ {
+		v := g.semverString()
+		var w string
+		switch g.c.Rand.Intn(4) {
+		case 0:
+			w = g.semverString()
+		case 1:
+			w = g.mutate(v)
+		default:
+			w = g.variant(v)
+		}
+		if g.c.Rand.Intn(5) == 0 {
+			v = g.mutate(v)
+		}
+		if g.c.Rand.Intn(2) == 0 {
+			v, w = w, v
+		}
+		emitSem(v, w)
+	}
+	c.Note("C20: %d operation sequences on a real plugin root with shell-script plugins (%d regression shapes, %d version-pair sequences = every ordered pair of %d versions x overwrite x source kind, %d random sequences of 1..6 install/uninstall operations over source shapes: file/dir, exec/non-exec candidates, extras sorting before/after, sub-directories incl. one named like the source, symlinks, misnamed/invalid metadata, odd names); %d semver pairs (all pairs of %d fixed strings + grammar-directed/mutated).",
+		len(seqs), nShapes, nPairs, len(pool), nRandom, nSem, len(all))
+	return nil
+}
